@@ -6203,7 +6203,8 @@ impl Machine {
 
         let n = match Number::try_from((a2, &self.machine_st.arena.f64_tbl)) {
             Ok(Number::Fixnum(bp)) => bp.get_num() as u128,
-            Ok(Number::Integer(n)) => u128::try_from(&*n).unwrap(),
+            // a limit beyond u128 is as good as no limit (the argument is known to be non-negative)
+            Ok(Number::Integer(n)) => u128::try_from(&*n).unwrap_or(u128::MAX),
             _ => {
                 let stub = functor_stub(atom!("call_with_inference_limit"), 3);
                 let err = self.machine_st.type_error(ValidType::Integer, a2);
